@@ -336,3 +336,53 @@ pub fn materialize_text(ctx: &mut crate::drive::Ctx, text: &str) -> (std::path::
     std::fs::write(&mp, &main_text).ok();
     (mp, main_text)
 }
+
+/// A program written as text with the lines it has to print: compile it, check the stage IRs, check
+/// and run the Go. `sem` / `go` / `reject` name the properties a wrong output / invalid Go / a
+/// rejection is reported under.
+pub fn expect_text_program(ctx: &mut crate::drive::Ctx, rep: &mut Report, family: &str, case: &Value, site: &str, text: &str, expected: &str, sem: &[&'static str], go_props: &[&'static str], reject: &[&'static str]) {
+    let replay = json!({"kind": "differential", "family": family, "case": case, "source": text, "expected": {"stdout": expected, "end": "ok"}});
+    let (path, main_text) = materialize_text(ctx, text);
+    let comp = match compile_at(&path, &main_text) {
+        CompileOutcome::Ok(c) => c,
+        CompileOutcome::Panic(m) => {
+            let m = normalise_msg(&m);
+            rep.tag("compile:panic");
+            for p in reject.iter().chain(["C04"].iter()) {
+                rep.findings.push(Finding { property: p, class: "compile.panic".into(), site: format!("{};msg={}", site, m), detail: m.clone(), replay: replay.clone() });
+            }
+            return;
+        }
+        CompileOutcome::Err(e) => {
+            let (stage, msg) = describe_err(&e);
+            rep.tag(format!("compile:rejected:{}", stage));
+            for p in reject {
+                rep.findings.push(Finding { property: p, class: format!("compile.rejected.{}", stage), site: format!("{};msg={}", site, normalise_msg(&msg)), detail: msg.clone(), replay: replay.clone() });
+            }
+            return;
+        }
+    };
+    rep.tag("compile:ok");
+    for (stage, msg) in crate::irck::check_all(&comp) {
+        rep.tag(format!("irck:{}", stage));
+        rep.findings.push(Finding { property: "C03", class: format!("irck.{}", stage), site: format!("{};msg={}", site, normalise_msg(&msg)), detail: msg, replay: replay.clone() });
+    }
+    let go = go_text(&comp).unwrap_or_default();
+    drop(comp);
+    match crate::projects::run_go(&go, FUEL) {
+        Ok(o) if lossy(&o.stdout) == expected && o.end == NEnd::Ok => rep.tag("agree"),
+        Ok(o) => {
+            rep.tag("disagree");
+            for p in sem {
+                rep.findings.push(Finding { property: p, class: "sem.stdout".into(), site: site.to_string(), detail: format!("expected {:?} got {:?}/{}", expected, lossy(&o.stdout), end_tag(&o.end)), replay: json!({"kind": "differential", "family": family, "case": case, "source": text, "expected": {"stdout": expected, "end": "ok"}, "observed": {"stdout": lossy(&o.stdout), "end": end_tag(&o.end), "go_text": go}}) });
+            }
+        }
+        Err(m) if m.starts_with("machinery") => rep.tag("machinery:go-unsupported"),
+        Err(m) => {
+            rep.tag("go:rejected");
+            for p in go_props {
+                rep.findings.push(Finding { property: p, class: m.split(':').next().unwrap_or("go.invalid").to_string(), site: format!("{};goerr={}", site, normalise_msg(&m)), detail: m.clone(), replay: replay.clone() });
+            }
+        }
+    }
+}
